@@ -9,6 +9,9 @@ CLAIMED = {
  "C09": ("Deductive proof of per-function contracts on the real freelist code (go/ssa -> weakest-precondition VCs -> z3/cvc5), for all inputs and loop iterations. Covers the functions listed in the evidence file; the remaining allocator functions are named there as unchecked callees.",
          "Trusted: VC generator, solvers, A-nil, sort.Sort/sort.Search specs, unsafe page-view helpers (see evidence.trusted_base and DESIGN.md §5).",
          "contract-based deductive verification (SSA VC generation + SMT)", "§6 C09"),
+ "C18": ("Deductive proof that the only ftruncate site (DB.grow) never extends the file beyond MaxSize, that DB.allocate leaves the high-water mark untouched on error and keeps (hwm+1)*pageSize <= MaxSize when it moves it, with mmapSize/growSize verified against functional contracts (bit-precise int arithmetic, nonlinear size products). Refutations are replayed on the real code by the maxsize scenario.",
+         "Trusted: os.File.Truncate sets the length (A-os-io), DB.fileSize reports it; DB.mmap's contract is assumed (opaque); the freelist interface contract at the Allocate call site.",
+         "contract-based deductive verification (SSA VC generation + SMT)", "§6 C18"),
 }
 NA_REASON = {}
 
